@@ -612,6 +612,17 @@ func RunTCP(sc *TScript) (*TExec, error) {
 	x := &TExec{w: w, St: Stats{Labels: map[string]int{}}}
 	defer func() {
 		_ = w.srv.Close()
+		x.settle()
+		if !x.stop {
+			// once the server has been closed nothing remains: also the control connections it accepted
+			for _, c := range w.clients {
+				if !c.closed && !c.ctrl.Peer().IsClosed() {
+					x.fail([]string{"C15"}, "control-connection-open-after-close", "Server.Close left the accepted control connection of client %d open (its read loop goroutine keeps running)", c.idx)
+
+					break
+				}
+			}
+		}
 		w.net.CloseAll()
 	}()
 	x.settle()
